@@ -58,7 +58,7 @@ def run_shard(desc, R, tier):
                 eval_point({'x': x, 'p': p}, R)
     else:
         _, N, cplx = desc
-        fam = (A.gen_cplx(N) + A.tones_cplx(N)) if cplx else (A.gen_real(N) + A.tones_real(N))
+        fam = (A.gen_cplx(N) + A.tones_cplx(N)) if cplx else (A.gen_real(N) + A.tones_real(N) + A.pcm(N))
         for name, x in fam:
             for p in range(1, min(N - 1, 30) + 1):
                 eval_point({'x': x, 'p': p, 'name': name}, R)
@@ -70,8 +70,9 @@ def eval_point(pt, R):
     p = int(pt['p'])
     N = len(x)
     cplx = np.iscomplexobj(x)
-    feats = {'dtype': 'complex' if cplx else ('int' if x.dtype.kind in 'iu' else 'real'), 'order': 'p<=4' if p <= 4 else 'p>4'}
-    r = rc.correlation(x, x, p, 'biased')
+    feats = {'dtype': 'complex' if cplx else (('int' if x.dtype.itemsize >= 8 else 'narrow-int') if x.dtype.kind in 'iu' else 'real'), 'order': 'p<=4' if p <= 4 else 'p>4'}
+    xr = A.prom(x)          # reference quantities use the mathematical sample values
+    r = rc.correlation(xr, xr, p, 'biased')
     r0 = float(np.real(r[0]))
     T = lp.toeplitz(r)
     ev = np.linalg.eigvalsh(T)
@@ -101,7 +102,7 @@ def eval_point(pt, R):
     rhs[0] = P
     R.check(close(lhs, rhs, tol, tol * r0), 'normal_eq', feats, pt, lhs, rhs,
             'T(biased autocorrelation) [1,a]^T != [P,0..0]^T: model autocorrelation does not match lags 0..p', err=relerr(lhs, rhs, tol * r0))
-    als, _, _, _ = rar.ls_ar(x, p, 'autocorrelation')
+    als, _, _, _ = rar.ls_ar(xr, p, 'autocorrelation')
     R.check(close(a, als, 1e-7 * kap, 1e-9), 'lstsq', feats, pt, a, als, "aryule != least squares on the 'autocorrelation' data matrix",
             err=relerr(a, als))
     if not cplx:
